@@ -1,5 +1,6 @@
 import RactorModel.Model.Admission
 import RactorModel.Model.StopPorts
+import RactorModel.Model.AdmissionMeasure
 import Driver.Common
 
 /-! Driver for the `Admission` model (C02, C07).
@@ -211,6 +212,12 @@ structure St where
   /-- model and implementation already disagreed in this case: the rest of the case is not
   compared any more (one DIFF per case), the oracle still judges the implementation -/
   diverged : Bool := false
+  /-- wave 2: step budget of the case = the ranking measure of its initial model state (`mu (init progs)`,
+  theorem `C07.no_livelock_under_any_schedule`: no schedule has more effective steps) + slack for the
+  port requests, which are not steps of the admission model -/
+  budget : Nat := 0
+  /-- worker steps the implementation has taken in this case -/
+  nsteps : Nat := 0
   deriving Inhabited
 
 instance : Inhabited Case := ⟨{}⟩
@@ -372,7 +379,8 @@ def step1 (st : St) (op impl : String) : St × StepOut :=
     let g := init (ps ++ List.replicate h [Op.send [] false false])
     let st' : St := { g := g, c := { line := 0 }, exitReason := "-", diverged := false, workers := ps.length,
                       tops := xs, ctl := xs.map (fun _ => none), serNow := xs.map (fun _ => false),
-                      badNow := xs.map (fun _ => false) }
+                      badNow := xs.map (fun _ => false),
+                      budget := mu g + 8 * ((xs.map List.length).foldl (· + ·) 0) + 64 }
     let ats := ",".intercalate ((List.range ps.length).map (threadAtX st'))
     (st', { model := s!"ok at={ats}" })
   | "step" :: tid :: point :: opt =>
@@ -560,10 +568,21 @@ def step1 (st : St) (op impl : String) : St × StepOut :=
     let orc := oracleStress (flag "drain") (flag "stop") rs handled drain sup exited ++ portOrc
     -- no model replay: free-running threads are judged by the oracle only
     (st, { model := impl, oracle := orc, nontrivial := flag "drain" && rs.any (·.res != "ok") && rs.any (·.res == "ok") })
+  | "budget" :: _ =>
+    -- the harness gave up on a case whose threads kept taking steps
+    (st, { model := impl, oracle := ["no-progress-within-the-measure"] })
   | _ => (st, { model := "bad-op" })
 
 def step (st : St) (op impl : String) : St × StepOut :=
   let (st', out) := step1 st op impl
+  -- wave 2, C07 "a drain never leaves the actor running forever" / lock-freedom on the implementation's
+  -- own trace: the real threads of a case take at most `mu (init progs)` steps (+ port requests)
+  let (st', out) :=
+    if op.startsWith "step " then
+      let n := st'.nsteps + 1
+      ({ st' with nsteps := n },
+        if n == st'.budget + 1 then { out with oracle := out.oracle ++ ["no-progress-within-the-measure"] } else out)
+    else (st', out)
   if st.diverged && !(op.startsWith "case ") && !(op.startsWith "stress ") then (st', { out with model := impl })
   else if out.model != impl then ({ st' with diverged := true }, out)
   else (st', out)
